@@ -94,6 +94,12 @@ def order_and_shortcircuit():
         pre + "fn main() { println(match v(2) { 1 => v(10), 2 | 3 => v(20), _ => v(30) }); }",
         pre + "fn main() { println(v(1) + 1 / (v(2) - 2)); println(v(3)); }",
         pre + "fn main() { println((-v(1)) ** v(2)); }",
+        # the right operand changes what the left operand denotes: operands are read in program order
+        "let g = 10; fn f() -> int { g += 5; 1 } fn main() { println(g - f()); println(g); g = 10; g -= f(); println(g); println(g == f()); println(g); }",
+        "let s = \"a\"; fn f() -> str { s += \"z\"; \"b\" } fn main() { println(s + f()); println(s); s += f(); println(s); }",
+        "let b = true; fn f() -> bool { b = false; true } fn main() { println(b & f()); println(b); b = true; println(b == f()); }",
+        "let g = 1.5; fn f() -> float { g = 100.0; 0.5 } fn main() { println(g + f()); println(g < f()); }",
+        "fn main() { let l = [1, 2]; let i = 0; l[i] = { i = 1; 7 }; println(l, i); }",
     ]
     return out
 
